@@ -202,8 +202,9 @@ def check_source_map(ob, fn, fails):
         return 0
     try:
         nlines = ob.source.count('\n') + 1
-        olines, ostart = inspect.getsourcelines(fn)
-        ofile = inspect.getsourcefile(fn)
+        # by code object: inspect.getsourcelines(fn) would follow fn.__wrapped__ to another function
+        olines, ostart = inspect.getsourcelines(fn.__code__)
+        ofile = fn.__code__.co_filename
         bad = []
         nforeign = 0
         for loc, org in ob.source_map.items():
